@@ -10,8 +10,13 @@ Decided clauses
   D2 argument immutability of every function and method of the anchored modules.  Flow-sensitive may-alias from the
      parameters through view-returning operations, killed by fresh ones; a write through an alias of a parameter
      (subscript / slice store, augmented assignment, np.fill_diagonal, out=, in-place methods), directly or through
-     a callee whose summary says it writes its k-th parameter, is reported.  Nested helpers that write their own
-     argument by design are summarised and judged at their call sites.
+     a callee whose summary says it writes its k-th parameter, is reported.  Nested helpers and private
+     (underscore-prefixed, not exported) module-level helpers that write their own argument by design are summarised
+     and judged at their call sites: a finding arises where an alias of a public function's / method's parameter is
+     passed (through any chain of helpers), or when such a helper has no call site to be charged to.  Callables
+     (function aliases, bound methods, lambdas, accessors passed as arguments) are resolved to may-point-to sets;
+     a public function that hands its own parameter to a caller-supplied callable, and any callable of unknown
+     provenance applied to a tracked value, stop the analysis (exit 2).
   D3 RNG discipline.  Draws come from the global legacy generator or from a Generator built by
      np.random.default_rng(<argument | integer constant>); np.random.seed only in a constructor under
      `<seed> is not None`; any other source (unseeded default_rng, RandomState, stdlib random, ...) is reported.
@@ -106,7 +111,7 @@ def run(ctx):
               f"store_sites={counts['store_sites']} calls={counts['calls']} repo_calls={counts['repo_calls']} "
               f"rng_sites={counts['rng_sites']} time_functions={counts['time_functions']} "
               f"import_pairs={counts['import_pairs']} flat_imports={counts['flat_imports']}")
-        if ctx.root == "/repo" or os.environ.get("C14_SELFTEST") == "1":
+        if (ctx.root == "/repo" and not os.environ.get("VERIF_NO_SELFTEST")) or os.environ.get("C14_SELFTEST") == "1":
             ctx.notes["selftest"] = selftest(ctx)
 
 
@@ -119,6 +124,20 @@ def _self_param(fi):
         return None
     a = fi.node.args.posonlyargs + fi.node.args.args
     return a[0].arg if a else None
+
+
+def _is_private_helper(fi):
+    """Module-level function with a leading underscore (not a dunder) that the module does not export."""
+    if fi.cls is not None or fi.parent is not None:
+        return False
+    if not fi.name.startswith("_") or (fi.name.startswith("__") and fi.name.endswith("__")):
+        return False
+    for st in fi.module.tree.body:
+        if isinstance(st, ast.Assign) and any(isinstance(t, ast.Name) and t.id == "__all__" for t in st.targets):
+            if isinstance(st.value, (ast.List, ast.Tuple)):
+                if any(isinstance(x, ast.Constant) and x.value == fi.name for x in st.value.elts):
+                    return False
+    return True
 
 
 def _kind_text(kind, via):
@@ -143,6 +162,11 @@ def check_d1_d2(ctx, prog, eng, scope):
     prog.cls("utils", "SparseQuaternionMatrix")
     class_ids = {id(c) for c in classes}
     helper_sites = []
+    private_writers = []
+    call_site_count = {}       # callee where -> number of call sites (in the universe) of a callee that writes a parameter
+    for fi in eng.universe:
+        for site in eng.result(fi).mut_call_sites:
+            call_site_count[site[4]] = call_site_count.get(site[4], 0) + 1
     n_transitive_state = 0
     for _once in (0,):
         for fi in eng.universe:          # functions of the scope modules + repository callees analysed on demand
@@ -206,16 +230,40 @@ def check_d1_d2(ctx, prog, eng, scope):
                 ctx.ob(R2, f"{fi.where}: no write through an alias of a parameter "
                            f"({int(res.n_store_sites)} store sites, {int(res.n_repo_calls)} resolved calls)", True, where=fi.where,
                        loc=fi.loc(), sample=fi.name in ("quaternion_lu", "Hess_QR_ggivens", "UtriangleQsparse", "hessenbergize"))
-            for e in effs:
-                pname, attr = e.origin[1], e.origin[2]
-                tgt = f"parameter {pname!r}" + (f" (attribute .{attr})" if attr and e.kind in ("attribute store", "attribute delete") else "")
-                what = f"{tgt} written: {_kind_text(e.kind, e.via)}"
-                ctx.ob(R2, f"{fi.where}: {what}", False,
-                       "the caller's object is modified by the call",
-                       where=fi.where, construct=what, loc=e.loc)
+            elif _is_private_helper(fi) and call_site_count.get(fi.where, 0) > 0:
+                # a private module-level helper that writes its argument by design is treated like a nested helper:
+                # the write is charged to its call sites (through its summary) and becomes a finding only where an
+                # alias of a public function's parameter is passed
+                private_writers.append(fi.where)
+                written = sorted({e.origin[1] for e in effs})
+                ctx.ob(R2, f"{fi.where}: private helper writes its parameter(s) {', '.join(written)} by design; charged "
+                           f"to its {call_site_count[fi.where]} call sites", True, where=fi.where, loc=fi.loc(), sample=True)
+            else:
+                for e in effs:
+                    pname, attr = e.origin[1], e.origin[2]
+                    tgt = f"parameter {pname!r}" + (f" (attribute .{attr})" if attr and e.kind in ("attribute store", "attribute delete") else "")
+                    what = f"{tgt} written: {_kind_text(e.kind, e.via)}"
+                    ctx.ob(R2, f"{fi.where}: {what}", False,
+                           "the caller's object is modified by the call",
+                           where=fi.where, construct=what, loc=e.loc)
+    # A public function that hands an alias of its own parameter to a caller-supplied callable: external callers
+    # choose the callable, so nothing can be said at call sites alone -> outside the analysable subset (exit 2).
+    # Private / nested helpers are resolved at their call sites (summaries), where the actual callables are known.
+    for fi in eng.universe:
+        if fi.parent is not None or _is_private_helper(fi):
+            continue
+        for (key, pargs, pkws) in eng.result(fi).pcalls:
+            if key[0] != "param":
+                continue
+            passed = set()
+            for _s, v in list(pargs) + list(pkws):
+                passed |= {o[1] for o in v.all() if o[0] == "param" and o[1] != key[1]}
+            if passed:
+                raise AnalysisError(f"{fi.where}: public function passes its parameter(s) {', '.join(sorted(passed))} to "
+                                    f"the caller-supplied callable {key[1]!r}; the callable's effect cannot be resolved")
     # call sites of helpers that write their argument: the argument must be an object local to the caller
     n_helper = 0
-    for fi, (callee, pname, tracked, loc) in helper_sites:
+    for fi, (callee, pname, tracked, loc, _cwhere) in helper_sites:
         n_helper += 1
         if not tracked:     # a tracked argument is already reported above as a write through the caller's parameter
             ctx.ob(R2, f"{fi.where}: object passed as {pname!r} to {callee} (which writes it) is local to the caller",
@@ -229,7 +277,11 @@ def check_d1_d2(ctx, prog, eng, scope):
         raise AnalysisError(f"C14.D1: only {n_methods} methods under the frame condition (< {MIN_METHODS})")
     return {"functions": n_funcs, "store_sites": n_store, "calls": n_calls, "repo_calls": n_repo,
             "classes": sorted(f"{c.module.name}.{c.name}" for c in classes), "methods_frame_condition": n_methods,
-            "helper_call_sites": n_helper, "hidden_state_writes_inherited_from_callees": n_transitive_state}
+            "helper_call_sites": n_helper, "hidden_state_writes_inherited_from_callees": n_transitive_state,
+            "private_helpers_writing_their_argument": sorted(private_writers),
+            "calls_of_caller_supplied_callables": sum(len(eng.result(f).pcalls) for f in eng.universe),
+            "calls_of_unresolved_callables_without_tracked_arguments":
+                sorted({f"{f.where}: {d}" for f in eng.universe for d, _l in eng.result(f).unresolved_calls})}
 
 
 # ================================================================================================
@@ -586,9 +638,36 @@ VARIANTS = [
      ("F", R4, "CGNEQSolver.compute", "time value in the condition of If")),
     ("fallback import misses a name", "quatica/solver.py", r"(    from utils import \(\n        A2A0123,\n)        Hess_QR_ggivens,\n", "\\1",
      ("F", R5, "solver.py::<module>", "fallback import does not bind Hess_QR_ggivens")),
-    ("in-place kernel on an argument", "quatica/solver.py", r"    X = np\.zeros_like\(B\)\n    for i in range\(n\):\n",
-     "    X = B\n    for i in range(n):\n",
-     ("F", R2, "_solve_lower_triangular_quat", "parameter 'B' written: subscript store")),
+    ("in-place kernel on an argument (public function)", "quatica/decomp/hessenberg.py", r"    H_clean = H\.copy\(\)\n",
+     "    H_clean = H\n",
+     ("F", R2, "check_hessenberg", "parameter 'H' written: subscript store")),
+    ("in-place private kernel: charged to its call sites, all of which pass fresh arrays", "quatica/solver.py",
+     r"    X = np\.zeros_like\(B\)\n    for i in range\(n\):\n", "    X = B\n    for i in range(n):\n", ("S",)),
+    ("private module-level helper applied to a public parameter", "quatica/tensor.py",
+     r"def tensor_frobenius_norm\(T: np\.ndarray\) -> float:\n",
+     "def _zero_first(M):\n    M[0] = 0\n\n\ndef tensor_frobenius_norm(T: np.ndarray) -> float:\n    _zero_first(T)\n",
+     ("F", R2, "tensor_frobenius_norm", "parameter 'T' written: passed to _zero_first(M)")),
+    ("private module-level writer without any call site", "quatica/tensor.py",
+     r"def tensor_frobenius_norm\(T: np\.ndarray\) -> float:\n",
+     "def _zero_first(M):\n    M[0] = 0\n\n\ndef tensor_frobenius_norm(T: np.ndarray) -> float:\n",
+     ("F", R2, "_zero_first", "parameter 'M' written: subscript store")),
+    ("bound-method alias + state stored by one of the targets", "quatica/solver.py",
+     [r"        if m >= n:\n            # Use column variant for tall/square matrices\n            return self\.compute_column_variant\(A\)\n        else:\n            # Use row variant for wide matrices\n            return self\.compute_row_variant\(A\)\n",
+      r"(        # Clamp block size to safe range \(local: the solver object is not modified\)\n)"],
+     ["        variant = self.compute_row_variant if m < n else self.compute_column_variant\n        return variant(A)\n",
+      "\\1        self.block_size = max(1, min(self.block_size, m, n))\n"],
+     ("F", R1, "RandomizedSketchProjectPseudoinverse.compute", "store to self.block_size through RandomizedSketchProjectPseudoinverse.compute_column_variant")),
+    ("callable parameter: helper writes through the result of a caller-supplied accessor", "quatica/tensor.py",
+     [r"def tensor_entrywise_abs\(T: np\.ndarray\) -> np\.ndarray:\n",
+      r"    return np\.sqrt\(np\.sum\(Tf\*\*2, axis=-1\)\)\n"],
+     ["def _poke(get):\n    get(0)[0] = 0.0\n\n\ndef tensor_entrywise_abs(T: np.ndarray) -> np.ndarray:\n",
+      "    _poke(lambda c: Tf[..., c])\n    return np.sqrt(np.sum(Tf**2, axis=-1))\n"],
+     ("F", R2, "tensor_entrywise_abs", "parameter 'T' written: passed to _poke(result of get)")),
+    ("nested helper writes a captured parameter", "quatica/decomp/LU.py",
+     r"    m, n = A\.shape\n    result = np\.zeros_like\(A\)\n\n    for i in range\(m\):\n        for j in range\(n\):\n            if j >= i \+ k:",
+     "    m, n = A.shape\n    result = np.zeros_like(A)\n\n    def wipe(i):\n        A[i, :] = 0\n\n    wipe(0)\n"
+     "    for i in range(m):\n        for j in range(n):\n            if j >= i + k:",
+     ("F", R2, "quaternion_triu", "parameter 'A' written: subscript store in nested function wipe")),
     ("helper applied to a parameter", "quatica/decomp/schur.py",
      r"(    lo, hi = 0, n - 1\n)", "\\1    apply_left_rows(A, 0, np.eye(2))\n",
      ("F", R2, "quaternion_schur_experimental", "parameter 'A' written: passed to")),
@@ -607,6 +686,21 @@ VARIANTS = [
      "    from decomp.LU import quaternion_lu as qr_qua\n",
      ("F", R5, "data_gen.py::<module>", "qr_qua is decomp.qsvd.qr_qua in the package spelling but decomp.LU.quaternion_lu")),
     # ---- behaviour-preserving: must stay silent
+    ("bound-method alias (conditional expression of two methods)", "quatica/solver.py",
+     r"        if m >= n:\n            # Use column variant for tall/square matrices\n            return self\.compute_column_variant\(A\)\n        else:\n            # Use row variant for wide matrices\n            return self\.compute_row_variant\(A\)\n",
+     "        variant = self.compute_row_variant if m < n else self.compute_column_variant\n        return variant(A)\n", ("S",)),
+    ("local alias of a helper + accessor lambdas handed to a private helper", "quatica/tensor.py",
+     [r"def tensor_entrywise_abs\(T: np\.ndarray\) -> np\.ndarray:\n",
+      r"    return np\.sqrt\(np\.sum\(Tf\*\*2, axis=-1\)\)\n"],
+     ["def _sumsq(get, count):\n    total = get(0) ** 2\n    for c in range(1, count):\n        total = total + get(c) ** 2\n    return total\n\n\n"
+      "def tensor_entrywise_abs(T: np.ndarray) -> np.ndarray:\n",
+      "    acc = _sumsq\n    return np.sqrt(acc(lambda c: Tf[..., c], 4))\n"], ("S",)),
+    ("nested helper writes a captured copy (defined and called after the copy)", "quatica/utils.py",
+     r"(    b0, b1, b2, b3 = b0\.copy\(\), b1\.copy\(\), b2\.copy\(\), b3\.copy\(\)\n)",
+     "\\1\n    def clear_row(i):\n        b0[i, :] = 0 * b0[i, :]\n\n    if rb < 0:\n        clear_row(0)\n", ("S",)),
+    ("private module-level helper applied to a copy", "quatica/tensor.py",
+     r"def tensor_frobenius_norm\(T: np\.ndarray\) -> float:\n",
+     "def _zero_first(M):\n    M[0] = 0\n\n\ndef tensor_frobenius_norm(T: np.ndarray) -> float:\n    _zero_first(np.array(T))\n", ("S",)),
     ("copies through map(np.copy, ...)", "quatica/utils.py",
      r"    b0, b1, b2, b3 = b0\.copy\(\), b1\.copy\(\), b2\.copy\(\), b3\.copy\(\)\n",
      "    b0, b1, b2, b3 = map(np.copy, (b0, b1, b2, b3))\n", ("S",)),
@@ -650,8 +744,11 @@ def _run_variant(args):
         if os.path.isdir(ap):
             shutil.copytree(ap, os.path.join(tmp, "applications", "image_deblurring"),
                             ignore=shutil.ignore_patterns("__pycache__"))
-        if not _apply_variant(tmp, rel, pattern, repl, replace_all=len(expect) > 1 and expect[1] == "all"):
-            return (idx, "skip", "pattern does not match exactly once")
+        pats = pattern if isinstance(pattern, list) else [pattern]
+        reps = repl if isinstance(repl, list) else [repl]
+        for pt, rp in zip(pats, reps):
+            if not _apply_variant(tmp, rel, pt, rp, replace_all=len(expect) > 1 and expect[1] == "all"):
+                return (idx, "skip", "pattern does not match exactly once")
         c = Ctx("C14", "quick", tmp)
         try:
             run(c)
